@@ -414,6 +414,40 @@ def genSearch (mode : String) (seed n maxDepth : Nat) (rootsFile : String)
       -- "stop": the k loop is expanded by the orchestrator (it needs the poll count of the free run)
       out.putStrLn s!"search\t{mb}\t{job p (d + 2) 0 true}"
 
+/-! ### C11 at the level of the search: a move that repeats an earlier position of the game is worth a draw -/
+
+/-- games (reversible moves preferred) after which some legal move leads back to a position that already occurred
+    since the last capture or pawn move; a depth-1 search of the final position must not score below a draw, and
+    a depth-2 search of a position with the clock at 98 or 99 and only reversible moves likewise.  The request is a
+    `search` job with the game as history. -/
+def genDrawSearch (seed n : Nat) (rootsFile : String) : IO Unit := do
+  let roots ← readLines rootsFile
+  let out ← IO.getStdout
+  let mut r := Rng.ofSeed (seed + 1301)
+  let rootPos := (startFen :: roots).filterMap fun f => (readPosition f).map (·.pos)
+  let mut k := 0
+  let mut tries := 0
+  while k < n && tries < 60 * n + 200 do
+    tries := tries + 1
+    let (r1, root) := r.pick rootPos
+    let (r2, len) := r1.below 9
+    let (r3, ms) := shufflePlayout r2 root (len + 3)
+    r := r3
+    -- positions of the game, most recent first
+    let rec walk (p : Rules.Pos) (acc : List Rules.Pos) : List Move → List Rules.Pos
+      | [] => p :: acc
+      | m :: rest => walk (Rules.apply p m) (p :: acc) rest
+    match walk root [] ms with
+    | [] => pure ()
+    | cur :: earlier =>
+      let window := earlier.take cur.halfmove
+      let repeats := (Rules.legalMoves cur).any fun m =>
+        let nxt := Rules.apply cur m
+        nxt.halfmove > 0 && (((cur :: window).take nxt.halfmove).any (Rules.samePosition nxt))
+      if repeats && !(Rules.inCheck cur.board cur.player) then
+        out.putStrLn s!"search\t1\t{posText root}|{" ".intercalate (ms.map Move.text)}|1|0|0"
+        k := k + 1
+
 /-! ### C17: whole games, biased to castling / e.p. / all four promotions -/
 
 def genGames (seed n : Nat) (rootsFile : String) : IO Unit := do
